@@ -2,12 +2,14 @@ package h
 
 import (
 	"context"
+	"encoding/json"
 	"fmt"
 	"math"
 	"os"
 	"strings"
 	"sync"
 
+	dtypes "github.com/sdcio/data-server/pkg/datastore/types"
 	"github.com/sdcio/data-server/pkg/tree"
 	"github.com/sdcio/data-server/pkg/utils"
 	sdcpb "github.com/sdcio/sdc-protos/sdcpb"
@@ -23,7 +25,7 @@ type c11List struct {
 }
 
 func c11Lists() []c11List {
-	one := []string{"a", "e1", "e10", "ab", "a/b", "a_b", "a:b", "a=b", "a b", "a[b]", "a]", "b"}
+	one := []string{"a", "e1", "e10", "ab", "a/b", "a/descr", "a_b", "a:b", "a=b", "a=b=c", "a b", "a[b]", "a]", "b"}
 	two := []string{"a", "b", "c", "a_b", "b_c", "a/b", "a b"}
 	three := []string{"a", "b", "a_b", "b_a"}
 	if Tier() == "thorough" {
@@ -276,8 +278,117 @@ func runC11() int {
 	}
 	close(ch)
 	wg.Wait()
+	// pair writes: p and q stored by two intents in the same datastore, one after the other (lookups are memoised
+	// per datastore, so the second path meets whatever the first one left behind); plus the JSON input form in
+	// which the keys of a multi-key entry are split between the request path and the JSON body
+	type pairJob struct{ a, b int }
+	var pjobs []pairJob
+	for i, p := range paths {
+		for j, q := range paths {
+			if i != j && p.List.Name == q.List.Name && (len(p.List.Keys) == 1 || Tier() == "thorough" || (i+j)%7 == 0) {
+				pjobs = append(pjobs, pairJob{i, j})
+			}
+		}
+	}
+	pairWrites := 0
+	pch := make(chan pairJob, 64)
+	var pwg sync.WaitGroup
+	for i := 0; i < 16; i++ {
+		pwg.Add(1)
+		go func() {
+			defer pwg.Done()
+			wc := NewWorkerCache()
+			defer wc.Close()
+			for pj := range pch {
+				p, q := paths[pj.a], paths[pj.b]
+				if p.List.Name == "dk" || p.List.Name == "tk" {
+					continue // covered (and known to fail) by the single path clauses
+				}
+				cc, err := wc.Get()
+				if err != nil {
+					continue
+				}
+				fp := &Fragment{Name: "p", Leaves: []Leaf{{P: p.Leaf, V: "vp"}}}
+				fq := &Fragment{Name: "q", Leaves: []Leaf{{P: q.Leaf, V: "vq"}}}
+				w, err := NewWorld(u, cc, nil, WorldOpts{Fragments: map[string]*Fragment{"p": fp, "q": fq}})
+				if err != nil {
+					continue
+				}
+				cas := map[string]any{"first": p.Leaf.String(), "second": q.Leaf.String()}
+				sig := fmt.Sprintf("pair-write:%s:%s:then-%s", p.List.Name, valueClass(p.Vals), valueClass(q.Vals))
+				o1 := w.Apply(single(IntentSpec{Owner: "A", Prio: 10, Frag: "p"}))
+				o2 := w.Apply(single(IntentSpec{Owner: "B", Prio: 20, Frag: "q"}))
+				if o1.Rejected() || o2.Rejected() {
+					rep.Add(&Violation{Clause: "pair-write-rejected", Sig: "rejected-" + sig, Engine: "E3-inputs", Case: cas,
+						Detail: fmt.Sprintf("storing %s and then %s: first rejected=%v second rejected=%v (err=%v conv=%v intentErrors=%v panic=%q)", p.Leaf, q.Leaf, o1.Rejected(), o2.Rejected(), o2.Err, o2.ConvErr, intentErrors(o2), o2.Panic)})
+				} else {
+					want := fp.Defined()
+					for k, v := range fq.Defined() {
+						want[k] = v
+					}
+					if d := diffMaps(want, w.Dev.Snapshot()); d != "" {
+						rep.Add(&Violation{Clause: "pair-write-device", Sig: "device-" + sig, Engine: "E3-inputs", Case: cas,
+							Detail: fmt.Sprintf("after storing %s and then %s the device differs from the two requests: %s", p.Leaf, q.Leaf, d)})
+					}
+				}
+				w.Close()
+				mu.Lock()
+				pairWrites++
+				mu.Unlock()
+			}
+		}()
+	}
+	for _, pj := range pjobs {
+		pch <- pj
+	}
+	close(pch)
+	pwg.Wait()
+	// keys split between request path and JSON body
+	splitEvals := 0
+	func() {
+		wc := NewWorkerCache()
+		defer wc.Close()
+		for _, p := range paths {
+			if len(p.List.Keys) < 2 || p.List.Name == "dk" || p.List.Name == "tk" {
+				continue
+			}
+			cc, err := wc.Get()
+			if err != nil {
+				return
+			}
+			w, err := NewWorld(u, cc, nil, WorldOpts{})
+			if err != nil {
+				return
+			}
+			// first key in the path, the others and the leaf in the body
+			pe := &sdcpb.PathElem{Name: p.List.Name, Key: map[string]string{p.List.Keys[0]: p.Vals[0]}}
+			body := map[string]any{p.List.Leaf: "val"}
+			for i := 1; i < len(p.List.Keys); i++ {
+				body[p.List.Keys[i]] = p.Vals[i]
+			}
+			b, _ := json.Marshal(body)
+			ctx := context.Background()
+			splitEvals++
+			cas := map[string]any{"path": p.Leaf.String(), "request_path": CanonPath(&sdcpb.Path{Elem: []*sdcpb.PathElem{pe}}), "body": string(b)}
+			sig := fmt.Sprintf("split-keys:%s:%s", p.List.Name, valueClass(p.Vals))
+			ti, err := w.DS.SdcpbTransactionIntentToInternalTI(ctx, &sdcpb.TransactionIntent{Intent: "A", Priority: 10, Update: []*sdcpb.Update{{Path: &sdcpb.Path{Elem: []*sdcpb.PathElem{pe}}, Value: &sdcpb.TypedValue{Value: &sdcpb.TypedValue_JsonVal{JsonVal: b}}}}})
+			if err == nil {
+				_, err = w.DS.TransactionSet(ctx, "t", []*dtypes.TransactionIntent{ti}, nil, 3600e9, false)
+			}
+			if err != nil {
+				rep.Add(&Violation{Clause: "split-keys-rejected", Sig: "rejected-" + sig, Engine: "E3-inputs", Case: cas, Detail: "request with the keys split between path and JSON body refused: " + err.Error()})
+			} else if got, ok := w.Dev.Snapshot()[p.Leaf.String()]; !ok || got != "val" {
+				rep.Add(&Violation{Clause: "split-keys-device", Sig: "device-" + sig, Engine: "E3-inputs", Case: cas,
+					Detail: fmt.Sprintf("the device did not receive %s=val; device: %v", p.Leaf, w.Dev.Snapshot())})
+			}
+			w.Close()
+		}
+	}()
 	return rep.Finish(map[string]any{
-		"evaluations":         evals,
+		"evaluations":         evals + pairWrites + splitEvals,
+		"single_path_evaluations": evals,
+		"pair_write_evaluations":  pairWrites,
+		"split_key_evaluations":   splitEvals,
 		"pair_evaluations":    pairEvals,
 		"distinct_nontrivial": len(distinct),
 		"rule":                "every instance path of the enumerated lists x key-value alphabets goes through the three round trips (ToStrings/ToPath, ToXPath/ParsePath, TransactionSet -> response/device/stores/GetData) and is paired with every other enumerated path for the collision clauses; a case class is distinct by (list, set of separator characters in the key values)",
